@@ -42,3 +42,18 @@ def Page.render (p : Page) : Except Panic (List UInt8) :=
   | .ok rs => .ok (border p.w ++ [10] ++ rs ++ border p.w)
 
 end Flipdot
+
+namespace Flipdot
+
+/-- The data part of `Display for Frame` / `Message::SendData`: `write!(f, "{:02X} ", byte)` for every byte. -/
+def dataText : List UInt8 → List UInt8
+  | [] => []
+  | b :: bs => hexByte b ++ [32] ++ dataText bs
+
+/-- `format!("{}", frame)`: `Type {:02X} | Addr {:04X}` and, when there is data, ` | Data ` and the bytes. -/
+def Frame.display (f : Frame) : List UInt8 :=
+  ([84, 121, 112, 101, 32] : List UInt8) ++ hexByte f.ty ++ ([32, 124, 32, 65, 100, 100, 114, 32] : List UInt8) ++
+    hexByte (f.addr >>> 8).toUInt8 ++ hexByte f.addr.toUInt8 ++
+    (if f.data.isEmpty then [] else ([32, 124, 32, 68, 97, 116, 97, 32] : List UInt8) ++ dataText f.data)
+
+end Flipdot
